@@ -515,3 +515,251 @@ pub fn ipv4_packet(src: [u8; 4], dst: [u8; 4], payload: &[u8]) -> Vec<u8> {
     p[3] = total as u8;
     p
 }
+
+// ---------------------------------------------------------------------------------------
+// PairSim: two real PeerCrypto<NodeInfo> objects and an in-flight multiset owned by the harness
+
+use ring::signature::{Ed25519KeyPair, KeyPair};
+use std::sync::Arc;
+use vpncloud::crypto::Algorithms;
+
+pub fn keypair_from_seed(seed: u8) -> Arc<Ed25519KeyPair> {
+    let mut s = [0u8; 32];
+    for (i, b) in s.iter_mut().enumerate() {
+        *b = seed.wrapping_mul(31).wrapping_add(i as u8 * 7 + 1);
+    }
+    Arc::new(Ed25519KeyPair::from_seed_unchecked(&s).unwrap())
+}
+
+pub fn pubkey(kp: &Ed25519KeyPair) -> [u8; 32] {
+    let mut k = [0u8; 32];
+    k.copy_from_slice(kp.public_key().as_ref());
+    k
+}
+
+pub fn default_algos() -> Algorithms {
+    Algorithms {
+        algorithm_speeds: smallvec![
+            (&ring::aead::AES_128_GCM, 600.0),
+            (&ring::aead::AES_256_GCM, 500.0),
+            (&ring::aead::CHACHA20_POLY1305, 400.0)
+        ],
+        allow_unencrypted: false,
+    }
+}
+
+#[derive(Debug, PartialEq)]
+pub enum Event {
+    /// side completed the handshake; reply byte 0 (None = no reply), payload node id byte
+    Completed { side: usize, reply_first: Option<u8>, payload: Box<NodeInfo> },
+    Error { side: usize, fatal: bool, text: String },
+    TimedOut { side: usize },
+    Data { side: usize, msg_type: u8, payload: Vec<u8> },
+}
+
+pub struct EndSpec {
+    pub key: Arc<Ed25519KeyPair>,
+    pub trusted: Vec<[u8; 32]>,
+    pub algos: Algorithms,
+    pub id: u8,
+}
+
+pub struct PairSim {
+    pub ends: [PeerCrypto<NodeInfo>; 2],
+    pub payload: [NodeInfo; 2],
+    /// (destination side, bytes)
+    pub inflight: Vec<(usize, Vec<u8>)>,
+    pub events: Vec<Event>,
+    pub completed: [u32; 2],
+    pub timed_out: [bool; 2],
+    pub ticks: [u32; 2],
+    /// true when side 0 has the larger salted node-id hash
+    pub orientation: bool,
+    pub seal_logs: [Vec<vpncloud::crypto::verif::VerifSeal>; 2],
+    pub log_seals: bool,
+    pub probe_counter: u32,
+}
+
+impl PairSim {
+    /// Creates the two ends; `orientation` = Some(x) pins which end has the larger salted node-id hash
+    /// (the only SystemRandom draw that changes control flow) by re-creating the objects until it holds.
+    pub fn new(a: &EndSpec, b: &EndSpec, orientation: Option<bool>) -> Self {
+        let mk = |s: &EndSpec| {
+            PeerCrypto::new(node_id(s.id), node_info(s.id), s.key.clone(), s.trusted.clone().into_boxed_slice().into(), s.algos.clone())
+        };
+        let ea = mk(a);
+        let mut eb = mk(b);
+        let mut guard = 0;
+        loop {
+            let ha = ea.verif_salted_hash().unwrap();
+            let hb = eb.verif_salted_hash().unwrap();
+            let o = ha > hb;
+            if orientation.map(|w| w == o).unwrap_or(true) || guard > 200 {
+                return PairSim {
+                    ends: [ea, eb],
+                    payload: [node_info(a.id), node_info(b.id)],
+                    inflight: vec![],
+                    events: vec![],
+                    completed: [0, 0],
+                    timed_out: [false, false],
+                    ticks: [0, 0],
+                    orientation: o,
+                    seal_logs: [vec![], vec![]],
+                    log_seals: false,
+                    probe_counter: 0,
+                };
+            }
+            eb = mk(b);
+            guard += 1;
+        }
+    }
+
+    pub fn simple(orientation: Option<bool>) -> Self {
+        let key = keypair_from_seed(1);
+        let t = vec![pubkey(&key)];
+        let a = EndSpec { key: key.clone(), trusted: t.clone(), algos: default_algos(), id: 1 };
+        let b = EndSpec { key, trusted: t, algos: default_algos(), id: 2 };
+        Self::new(&a, &b, orientation)
+    }
+
+    fn collect_log(&mut self, side: usize) {
+        if self.log_seals {
+            let l = vpncloud::crypto::verif::verif_seal_log_take();
+            self.seal_logs[side].extend(l);
+        }
+    }
+
+    pub fn init(&mut self, side: usize) -> bool {
+        let mut buf = new_buf();
+        match self.ends[side].initialize(&mut buf) {
+            Ok(()) => {
+                self.inflight.push((1 - side, buf.message().to_vec()));
+                true
+            }
+            Err(_) => false,
+        }
+    }
+
+    /// hands bytes to `side` as one datagram; returns the result classification
+    pub fn feed(&mut self, side: usize, data: &[u8]) -> Result<&'static str, String> {
+        let mut buf = new_buf();
+        buf.set_length(data.len());
+        buf.message_mut().copy_from_slice(data);
+        let r = self.ends[side].handle_message(&mut buf);
+        self.collect_log(side);
+        match r {
+            Ok(MessageResult::Reply) => {
+                self.inflight.push((1 - side, buf.message().to_vec()));
+                Ok("reply")
+            }
+            Ok(MessageResult::None) => Ok("none"),
+            Ok(MessageResult::Message(t)) => {
+                self.events.push(Event::Data { side, msg_type: t, payload: buf.message().to_vec() });
+                Ok("message")
+            }
+            Ok(MessageResult::Initialized(p)) => {
+                self.completed[side] += 1;
+                self.events.push(Event::Completed { side, reply_first: None, payload: Box::new(p) });
+                Ok("initialized")
+            }
+            Ok(MessageResult::InitializedWithReply(p)) => {
+                self.completed[side] += 1;
+                let first = buf.message().first().copied();
+                self.events.push(Event::Completed { side, reply_first: first, payload: Box::new(p) });
+                self.inflight.push((1 - side, buf.message().to_vec()));
+                Ok("initialized-with-reply")
+            }
+            Err(e) => {
+                let fatal = matches!(e, vpncloud::error::Error::CryptoInitFatal(_));
+                let text = e.to_string();
+                self.events.push(Event::Error { side, fatal, text: text.clone() });
+                Err(text)
+            }
+        }
+    }
+
+    pub fn deliver(&mut self, i: usize) -> Option<Result<&'static str, String>> {
+        if i >= self.inflight.len() {
+            return None;
+        }
+        let (side, data) = self.inflight.remove(i);
+        Some(self.feed(side, &data))
+    }
+
+    pub fn dup(&mut self, i: usize) -> Option<Result<&'static str, String>> {
+        if i >= self.inflight.len() {
+            return None;
+        }
+        let (side, data) = self.inflight[i].clone();
+        Some(self.feed(side, &data))
+    }
+
+    pub fn drop_msg(&mut self, i: usize) -> bool {
+        if i < self.inflight.len() {
+            self.inflight.remove(i);
+            true
+        } else {
+            false
+        }
+    }
+
+    pub fn tick(&mut self, side: usize) {
+        let mut buf = new_buf();
+        self.ticks[side] += 1;
+        let r = self.ends[side].every_second(&mut buf);
+        self.collect_log(side);
+        match r {
+            Ok(MessageResult::Reply) => self.inflight.push((1 - side, buf.message().to_vec())),
+            Ok(_) => {}
+            Err(_) => {
+                self.timed_out[side] = true;
+                self.events.push(Event::TimedOut { side });
+            }
+        }
+    }
+
+    /// delivers everything in flight, in order, until quiet
+    pub fn settle(&mut self) {
+        let mut guard = 0;
+        while !self.inflight.is_empty() && guard < 1000 {
+            self.deliver(0);
+            guard += 1;
+        }
+    }
+
+    /// `from` seals a fresh probe payload; returns the wire bytes
+    pub fn seal_probe(&mut self, from: usize) -> Result<(Vec<u8>, Vec<u8>), String> {
+        self.probe_counter += 1;
+        let payload: Vec<u8> = format!("probe-{}-{}", from, self.probe_counter).into_bytes();
+        let mut buf = new_buf();
+        buf.set_length(payload.len());
+        buf.message_mut().copy_from_slice(&payload);
+        let r = self.ends[from].send_message(0, &mut buf).map_err(|e| e.to_string());
+        self.collect_log(from);
+        r?;
+        Ok((buf.message().to_vec(), payload))
+    }
+
+    /// `from` seals a probe, the other end must open it to the same bytes
+    pub fn probe(&mut self, from: usize) -> Result<(), String> {
+        let (wire, payload) = self.seal_probe(from)?;
+        let mut buf = new_buf();
+        buf.set_length(wire.len());
+        buf.message_mut().copy_from_slice(&wire);
+        match self.ends[1 - from].handle_message(&mut buf) {
+            Ok(MessageResult::Message(0)) => {
+                if buf.message() == &payload[..] {
+                    Ok(())
+                } else {
+                    Err("probe opened to different bytes".into())
+                }
+            }
+            Ok(o) => Err(format!("probe gave {:?}", o)),
+            Err(e) => Err(format!("probe from side {} failed to open: {}", from, e)),
+        }
+    }
+
+    pub fn both_ready(&self) -> bool {
+        self.completed[0] > 0 && self.completed[1] > 0
+    }
+}
